@@ -22,16 +22,21 @@ Time is owned: directory mtimes are set from a logical clock that advances 1 s p
 does not touch the directory mtime (real behaviour).  Since the lookups happen on every state the
 cache is always as fresh as a user who looks after every change could have it.
 
-A mismatch of a cache view is classified by REPAIR TRANSFORMS, so that keys name root causes:
-  * a brand-new CommandsCache on the same state is right  -> the view is STALE, else its LOGIC is wrong;
-  * stale views are blamed on the latest history event E such that replaying the history with every
-    directory's mtime bumped right after E makes the view right (`...-after-<kind of E>`); only
-    chmod / $PATH edit / cd events are repair candidates (they do not change a directory mtime by
-    themselves), anything else is reported as `unattributed` with the last event kind.
+Only mismatches that are NEW on a state (not already present, identically, on the state before the
+event) are reported, and a mismatch of a cache view is classified by REPAIR TRANSFORMS, so that
+keys name root causes and not inputs:
+  * `x/y in cache` for an explicit path that equals the answer for its bare basename
+        -> `cache-contains:logic:explicit-name-decided-by-basename`;
+  * a brand-new CommandsCache on the same state is just as wrong -> `<view>:logic:<kind>:<name class>:<what was selected>`
+    (the same form is used for the stateless views locate-executable / spec / spawn);
+  * otherwise the view is STALE and is blamed on the event the cache failed to notice: the last
+    event E of the history such that renewing the cache object right after E heals the view while
+    renewing it just before E does not -> `<view>:stale-after-<class of E>` (chmod+x, chmod-x,
+    path-edit, cd, create-*, delete).
 
 Does not require: equal path spelling; any particular error text/kind for a name that resolves to
 nothing; behaviour of $XONSH_COMMANDS_CACHE_READ_DIR_ONCE directories (empty here); Windows PATHEXT
-logic; alias names in the cache (no alias is called x or y); iteration of the cache containing
+logic; alias names in the cache (the alias table is emptied); iteration of the cache containing
 explicit paths; anything on (state, name) pairs where sh / shutil.which / the reference disagree
 (e.g. a lone empty $PATH)."""
 
@@ -84,6 +89,14 @@ ALPHA = {
         "paths": (0, 1, 2, 5, 8),
         "inplace": (["path.append", D2], ["path.remove", D1]),
         "cd": ("w", "d1"),
+    },
+    # quick tier (a subset of "mid")
+    "quick": {
+        "dirs": ("d1", "d2", "w"),
+        "kinds": {("d1", "x"): ALL_KINDS, ("d2", "x"): "E N D LE LX", ("w", "x"): "E N", ("d1", "y"): "E"},
+        "paths": (0, 1, 2, 5, 6, 7, 8, 9),
+        "inplace": (["path.append", D2], ["path.insert0", D2], ["path.remove", D1]),
+        "cd": ("w", "R"),
     },
     "mid": {
         "dirs": ("d1", "d2", "w"),
@@ -150,6 +163,10 @@ def nameclass(name):
     if "/" not in name:
         return "bare"
     return "explicit"
+
+
+class Raised(str):
+    """Marker for a view that raised instead of answering."""
 
 
 class Harness:
@@ -226,12 +243,6 @@ class Harness:
         t = BASE_T + self.clock
         os.utime(self.p(d), (t, t))
 
-    def _touch_all(self):
-        self.clock += 1
-        t = BASE_T + self.clock
-        for d in ALL_DIRS:
-            os.utime(self.p(d), (t, t))
-
     def reset(self):
         for d in ALL_DIRS:
             dp = self.p(d)
@@ -255,7 +266,10 @@ class Harness:
 
     def _lookup(self):
         """The lookup every state gets (all cache views start with the same update_cache())."""
-        return "x" in self.cc()
+        try:
+            return "x" in self.cc()
+        except Exception:  # noqa: BLE001 - the checked step reports it
+            return None
 
     # -------------------------------------------------------------- events
     def apply(self, ev):
@@ -338,7 +352,10 @@ class Harness:
         cc = self.cc()
         digest = []
         for n in NAMES:
-            s = self._sel(cc.lazy_locate_binary(n))
+            try:
+                s = self._sel(cc.lazy_locate_binary(n))
+            except Exception as e:  # noqa: BLE001
+                s = {"entry": f"raised {type(e).__name__}"}
             digest.append(None if s is None else s["entry"])
         envp = [self.rel(x) for x in self.xsh.env["PATH"]]
         return {"state": self.state(), "cache": digest, "envPATH": envp if envp != self.m_path else "=", "osdir": self.rel(os.getcwd()) if os.getcwd() != (self.R if self.m_cwd == "R" else self.p(self.m_cwd)) else "="}
@@ -503,6 +520,13 @@ class Harness:
 
     # -------------------------------------------------------------- views of the implementation
     def view(self, view, name, cc=None):
+        """One view of the implementation; an exception other than the documented XonshError is an answer too."""
+        try:
+            return self._view(view, name, cc)
+        except Exception as e:  # noqa: BLE001 - reported as a violation of the view, never a tool error
+            return Raised(type(e).__name__)
+
+    def _view(self, view, name, cc=None):
         name = self.sub(name)
         cc = cc if cc is not None else self.cc()
         if view == "locate-executable":
@@ -535,6 +559,8 @@ class Harness:
 
     def _cmp(self, view, name, raw, exp):
         """-> None when the view agrees with the reference, else (kind, observed-json, sel)."""
+        if isinstance(raw, Raised):
+            return (f"raised-{raw}", f"raised {raw}", None)
         if view in BOOL_VIEWS:
             want = exp is not None
             if bool(raw) == want:
@@ -600,7 +626,7 @@ class Harness:
         for (view, name), mm in found.items():
             nc = nameclass(name)
             case = {"view": view, "name": name, "alphabet": self.level, "state": st}
-            if view == "cache-contains" and "/" in name and mm["obs"] == (os.path.basename(name) in self.cc()):
+            if view == "cache-contains" and "/" in name and mm["obs"] == self.view("cache-contains", os.path.basename(name)):
                 # repair transform: the answer is exactly the answer for the bare basename (fresh or stale alike)
                 viols.append(
                     {
@@ -656,12 +682,13 @@ class Harness:
             case["blamed_event"] = hist[i] if hist else None
             viols.append(
                 {
-                    "key": f"{view}:stale:{kind}-after-{blamed}" + ("" if "/" not in name else ":explicit"),
+                    "key": f"{view}:stale-after-{blamed}" + ("" if "/" not in name else ":explicit"),
                     "clause": "every view agrees with the file system now (no staleness)",
                     "case": case,
                     "observed": mm["obs"],
                     "expected": self._show(mm["exp"]) if view in SEL_VIEWS else (mm["exp"] is not None),
-                    "note": "a brand-new CommandsCache on the same state answers correctly, and so does the live one when it is renewed right after the blamed event",
+                    "note": f"{kind}: a brand-new CommandsCache on the same state answers correctly, and so does the live one when it is renewed right after the blamed event "
+                    f"(#{i}: {evkind(hist[i]) if hist else 'initial'}) but not when it is renewed just before it",
                 }
             )
         return viols
@@ -776,10 +803,10 @@ def run(ctx):
     global _MEMO_DIR
     _MEMO_DIR = common.scratch_dir("c08memo")
     if ctx.thorough:
-        plan = [("mid", 3, 4), ("full", 2, 3), ("core", 4, 5)]
+        plan = [("mid", 3, 4), ("full", 2, 3), ("core", 5, 6)]
         deadline = 720
     else:
-        plan = [("mid", 3, 3)]
+        plan = [("quick", 3, 3)]
         deadline = 50
     phases = []
     for level, d0, dmax in plan:
